@@ -386,7 +386,16 @@ pub fn run(args: &Args) -> i32 {
     let threads = crate::evidence::n_threads();
     let chunk = (items.len() + threads * 4 - 1) / (threads * 4);
     let chunks: Vec<&[(usize, Entry, Tp)]> = items.chunks(chunk.max(1)).collect();
-    let results = crate::evidence::par_map(chunks.len(), threads, |ci| chunks[ci].iter().map(|(i, e, t)| (*i, *e, *t, run_case(&cases[*i], *e, *t, &fx))).collect::<Vec<_>>());
+    let results = crate::evidence::par_map(chunks.len(), threads, |ci| {
+        chunks[ci]
+            .iter()
+            .map(|(i, e, t)| {
+                let (ci2, es, ts) = (*i, format!("{e:?}"), format!("{t:?}"));
+                let _g = crate::evidence::watchdog::enter(move || json!({"engine":"schedmc-c17","case_index":ci2,"entry":es,"transport":ts}));
+                (*i, *e, *t, run_case(&cases[*i], *e, *t, &fx))
+            })
+            .collect::<Vec<_>>()
+    });
     let mut classes: BTreeSet<String> = BTreeSet::new();
     let mut n = 0u64;
     for chunk in results {
@@ -420,6 +429,7 @@ pub fn run(args: &Args) -> i32 {
             let mut execs = 0u64;
             for (i, e, t) in chunks[ci].iter() {
                 let c = &cases[*i];
+                crate::evidence::watchdog::set_context(json!({"engine":"schedmc-c17","case_index":*i,"entry":format!("{e:?}"),"transport":format!("{t:?}")}));
                 let stats = crate::det::explore(
                     1,
                     400,
@@ -479,6 +489,8 @@ pub fn run(args: &Args) -> i32 {
             pchunks[ci]
                 .iter()
                 .map(|(a, b, e, t)| {
+                    let (pa, pb, es, ts) = (*a, *b, format!("{e:?}"), format!("{t:?}"));
+                    let _g = crate::evidence::watchdog::enter(move || json!({"engine":"schedmc-c17","pair":[pa,pb],"entry":es,"transport":ts}));
                     let (o, p, _) = run_seq(&[&cases[*a], &cases[*b]], *e, *t, &fx, &[]);
                     (*a, *b, *e, *t, o, p)
                 })
